@@ -1,6 +1,7 @@
 import NauyacaVerif.Srv.SegProof
 import NauyacaVerif.Srv.ConnProof
 import NauyacaVerif.Srv.PumpProof
+import NauyacaVerif.Srv.PumpSeg
 import NauyacaVerif.Gen.Params
 
 /-! # C07  Outcome is independent of read segmentation; handlers run at most once -/
@@ -44,4 +45,20 @@ theorem pump_at_most_once (cfg : Cfg) (evs : List PEv) (i : St) (hi : (pumpRun c
 theorem pump_rechunk (cfg : Cfg) (c : Bytes) (cs : List Bytes) :
     Eqv (feedAll cfg {} (c :: cs)) (step cfg {} (.data (c ++ cs.flatten))) := Srv.seg_indep cfg {} c cs
 
+
+/-- PyOpenSSL backend: how the TLS items (handshake records, application records, close-notify, garbage) are
+    grouped into TCP reads is not observable — TCP close, handshake state, the inner protocol's output trace,
+    invocation counts and uploaded content are the same as if all items arrived in one read; this includes the read
+    that completes the handshake also carrying application data -/
+theorem pump_seg_indep (cfg : Cfg) (reads : List (List Item)) :
+    (reads.foldl (pumpRead cfg) {}).obs = (pumpRead cfg {} reads.flatten).obs :=
+  reads_merge cfg reads {} ⟨by intro i hi; simp at hi, by intro h; simp at h, by intro _ _ _; rfl⟩
+
+/-- … from every reachable pump state, for two consecutive reads -/
+theorem pump_read_merge (cfg : Cfg) (evs : List PEv) (a b : List Item) :
+    (pumpRead cfg (pumpRead cfg (pumpRun cfg evs) a) b).obs = (pumpRead cfg (pumpRun cfg evs) (a ++ b)).obs :=
+  read_merge cfg _ (pumpRun_pinv cfg evs) a b
+
+example : ((pumpRead { mw := false, upload := false, handler := .syncRaise, env := asciiEnv } {} [.hs, .hsFinal, .app [103, 13, 10]]).obs).1 = true := by decide +kernel
+example : (([[Item.hs], [.hsFinal, .app [103, 13, 10]]].foldl (pumpRead { mw := false, upload := false, handler := .syncRaise, env := asciiEnv }) {}).obs).1 = true := by decide +kernel
 end NauyacaVerif.C07
